@@ -546,7 +546,7 @@ func init() {
 		Explanation: "Oracle per corrupted file: magic/sync/CRC bit flipped => error required. Payload flipped => if compress/flate resp. snappy.Decode rejects it or the CRC no longer matches => error required; otherwise, if the file is still a valid container by the strict reference parser (every varint in shortest form, as a conformant writer produces), the records delivered must equal its decoding. Header without avro.codec => same records as null. Unknown codec / missing schema => error. Callback error at record i => exactly i+1 callbacks and the identical error value.",
 		Assumptions: []string{"payload damage that both decompressor and checksum accept and that the strict reference parser rejects (e.g. leftover bytes) carries no demand: the statement lists sync, checksum, decompressor, magic, schema, codec"},
 		Modes:       func(tier string) []core.Mode { return []core.Mode{{Name: "plain", Variant: "plain"}} },
-		NumCases:    func(c *core.Ctx) int { return c.Pick(96, 1200) },
+		NumCases:    func(c *core.Ctx) int { return c.Pick(128, 1600) },
 		Run:         runC07,
 		Floors: func(a *core.Agg) []string {
 			var u []string
@@ -574,7 +574,7 @@ func init() {
 			"distinct_nontrivial = distinct files whose every cut was enumerated",
 		Explanation: "Expected at cut c: exactly the records of the blocks whose payload ends at or before c, unmodified and in order; nil error iff c is the end of the header or of a block.",
 		Modes:       func(tier string) []core.Mode { return []core.Mode{{Name: "plain", Variant: "plain"}} },
-		NumCases:    func(c *core.Ctx) int { return c.Pick(64, 1600) },
+		NumCases:    func(c *core.Ctx) int { return c.Pick(160, 3200) },
 		Run:         runC08,
 		Floors: func(a *core.Agg) []string {
 			var u []string
